@@ -83,7 +83,7 @@ pub trait MassMatrixAdaptStrategy<M: Math>: Sized {
     spec fn coll_good(c: &Self::Collector) -> bool;
     spec fn coll_sample(c: &Self::Collector) -> Sample;
     /// `t` carries the estimate computed from the foreground estimator `fg`
-    spec fn estimated_from(t: &Self::Transformation, fg: Seq<Sample>) -> bool;
+    spec fn estimated_from(t: TransView, fg: Seq<Sample>) -> bool;
 
     fn new(math: &mut M, options: Self::Options, num_tune: u64, chain: u64) -> (r: Self)
         ensures r.fg().len() == 0, r.bg().len() == 0;
@@ -99,7 +99,7 @@ pub trait MassMatrixAdaptStrategy<M: Math>: Sized {
     fn adapt(&self, math: &mut M, mass_matrix: &mut Self::Transformation) -> (r: bool)
         ensures !r ==> *final(mass_matrix) == *old(mass_matrix),
                 r ==> final(mass_matrix).view().id == old(mass_matrix).view().id + 1
-                      && Self::estimated_from(final(mass_matrix), self.fg());
+                      && Self::estimated_from(final(mass_matrix).view(), self.fg());
 }
 
 // ---- Strategy::init is proved in unit `stepsize_init` against this same contract text
@@ -113,13 +113,11 @@ impl Strategy {
         position: &[F],
         rng: &mut R,
     ) -> (r: Result<(), NutsError>)
+        requires
+            strat_wf(*old(self)),
         ensures
             final(hamiltonian).trans() == old(hamiltonian).trans(),
-            final(self).options == old(self).options,
-            final(self).last_mean_tree_accept == old(self).last_mean_tree_accept,
-            final(self).last_sym_mean_tree_accept == old(self).last_sym_mean_tree_accept,
-            final(self).last_n_steps == old(self).last_n_steps,
-            (final(self).adaptation is None) == (old(self).adaptation is None),
+            ss_init_post(*old(self), *final(self), old(hamiltonian).step(), final(hamiltonian).step(), r is Ok),
     { unimplemented!() }
 }
 
